@@ -10,6 +10,7 @@ import MafModel.Model.Overlap
 import MafModel.Model.Header
 import MafModel.Model.Reader
 import MafModel.Model.Writer
+import MafModel.Model.Resources
 import MafModel.Generated.Enums
 import MafModel.Generated.ClassTable
 import MafModel.Generated.SchemeDefs
@@ -498,6 +499,15 @@ def dispatch (env : Env) (j : Json) : Json :=
       | _ => ((extras, tbl, schemes), outs ++ [Json.mkObj [("fatal", "bad op")]])
     let (_, outs) := (getArr j "ops").foldl step (([], env.tbl, env.schemes.map (·.2)), [])
     Json.mkObj [("steps", Json.arr outs.toArray)]
+  | some "sorter.faults" =>
+    let (log, st) := Model.scenario ((getNat? j "n").getD 0) ((getNat? j "cap").getD 1) (getBool j "always_spill" true)
+      (getNat? j "abandon") (getNat? j "fail_at")
+    Json.mkObj [("calls", Json.arr (st.trace.map (fun c => Json.str c.name)).toArray),
+      ("raised", Json.arr (log.raised.map (fun p => Json.arr #[Json.str p.1, Json.str (errName p.2)])).toArray),
+      ("output", match log.output with | some o => Json.arr (o.map (fun (k : Nat) => Json.num (Lean.JsonNumber.fromNat k))).toArray | none => Json.null),
+      ("fired", Json.bool st.fired),
+      ("leaked_files", Json.num st.files.length), ("leaked_fds", Json.num st.fds.length),
+      ("open_handles", Json.num st.handles.length)]
   | some "schemes.build" =>
     -- definitions in load order; the result is compared as a set keyed by annotation
     let defs : List SchemeDef := (getArr j "defs").map (fun d => {
